@@ -379,7 +379,7 @@ def obligations(tier):
         f = types.FunctionType(X_lexer_total.__code__, X_lexer_total.__globals__, "X_lexer_total", None, X_lexer_total.__closure__)
         f.__doc__ = X_lexer_total.__doc__.replace("XCOND", xcond)
         f.__annotations__ = dict(X_lexer_total.__annotations__)
-        obs.append(xh_ob(PROP, f"X.lexer-total-on-1-char-strings[{xname}]", f, timeout=900, setup=_setup, stubs=["NFC fragment stub"], bound="all strings of length <= 1 whose character lies in this range (the 5 ranges partition all characters; the empty string is in the first)", functions=["lexer.tokenize", "_normalize_with_fence_detection", "_match_unicode_identifier"]))
+        obs.append(xh_ob(PROP, f"X.lexer-total-on-1-char-strings[{xname}]", f, timeout=900, setup=_setup, stubs=["NFC fragment stub"], optional=xname.startswith(("0x80", "0x3000")), bound="all strings of length <= 1 whose character lies in this range (the 5 ranges partition all characters; the empty string is in the first)" + ("; DEEPENING obligation: the non-ASCII ranges fork per Unicode category table entry and did not exhaust in 900 s on a loaded machine - claimed only when exhausted" if xname.startswith(("0x80", "0x3000")) else ""), functions=["lexer.tokenize", "_normalize_with_fence_detection", "_match_unicode_identifier"]))
     if th:
         for cname, chars in _CLASSES + [("letters", None), ("other", None)]:
             rest = cname if chars is None else None
